@@ -195,7 +195,8 @@ def afterReset (s : State) (from_ : Nat) : State :=
   let s := { s with fatal := none, renderer := .none, initDone := false, rt := none, rtParked := [], rtFlag := false,
                     agents := [], regOn := true, cancelDone := false, initFlow := {
                       extRegistered := s.initFlow.extRegistered.clear, runtimeReady := s.initFlow.runtimeReady.clear,
-                      agentReady := s.initFlow.agentReady.clear, restoreReady := s.initFlow.restoreReady.clear },
+                      agentReady := { s.initFlow.agentReady.clear with count := 65535 },   -- Clear, then SetCount(maxAgentsLimit): as a new flow
+                      restoreReady := s.initFlow.restoreReady.clear },
                     invFlow := { runtimeReady := s.invFlow.runtimeReady.clear, runtimeResponse := s.invFlow.runtimeResponse.clear,
                                  agentReady := s.invFlow.agentReady.clear } }
   { s with timers := s.timers ++ [.resetTail from_] }
